@@ -12,9 +12,9 @@ import z3
 
 from . import dsl
 from .dsl import Num, And, Or, Not, Implies, is_z3
-from .heap import Heap, RefV, cls_f, TupleV
+from .heap import Heap, RefV, cls_f, TupleV, map_same, map_equal
 from .state import State, SpecState, Oblig, Undecided
-from .contracts import make_arg, value_same, FunctionalContract
+from .contracts import make_arg, value_same, FunctionalContract, ForallInt
 from .prover import prove, model_to_dict
 from .symexec import NONEV
 
@@ -43,11 +43,8 @@ class FuncReport(object):
         )
 
 
-def heap_map(heap, key, like):
-    a = heap.maps.get(key)
-    if a is None:
-        a = z3.Const("%s@%s" % (key, heap.tag), like.sort())
-    return a
+def heap_map(heap, key, like=None):
+    return heap.ensure(key)
 
 
 def entry_state(ex, contract, cls_names=None):
@@ -73,20 +70,69 @@ def entry_state(ex, contract, cls_names=None):
 
 
 def discharge(obligs, timeout_ms, fr, func):
+    """prove every obligation; obligations that share an exit (same .group) are first tried as one
+    conjunction on a solver that holds the path condition once (each still counts and is reported
+    individually; a failing batch is split so the failing clause is named)."""
     seen = set()
     t0 = time.time()
+    groups = {}
+    singles = []
     for o in obligs:
         if id(o) in seen:
             continue
         seen.add(id(o))
-        r = prove(o, timeout_ms=timeout_ms)
-        d = dict(id=o.id, kind=o.kind, props=list(o.props), verdict=r.verdict, backend=r.backend, secs=round(r.secs, 4), func=func)
-        if r.verdict == "refuted":
-            d["model"] = model_to_dict(r.model) if r.model is not None else None
+        g = getattr(o, "group", None)
+        if g is None or isinstance(o.goal, ForallInt):
+            singles.append(o)
+        else:
+            groups.setdefault(g, []).append(o)
+
+    def record(o, verdict, backend, secs, model=None, reason=None, known=None):
+        d = dict(id=o.id, kind=o.kind, props=list(o.props), verdict=verdict, backend=backend, secs=round(secs, 4), func=func)
+        if verdict == "refuted":
+            d["model"] = model_to_dict(model) if model is not None else None
             d["info"] = {k: str(v) for k, v in (o.info or {}).items()}
-        if r.verdict == "unknown":
-            d["reason"] = r.reason
+        if reason:
+            d["reason"] = reason
+        if known:
+            d["known"] = known
         fr.results.append(d)
+
+    def single(o):
+        r = prove(o, timeout_ms=timeout_ms)
+        if r.verdict == "refuted" and getattr(o, "regions", None):
+            # known-finding regions: is every counterexample inside a recorded region?
+            for (fid, region) in o.regions:
+                o2 = Oblig(o.id, list(o.pc) + [_zb(Not(region))], o.goal, o.kind, o.props, o.info)
+                o2.schemas = getattr(o, "schemas", None)
+                r2 = prove(o2, timeout_ms=timeout_ms)
+                if r2.verdict == "proved":
+                    record(o, "refuted", r.backend, r.secs + r2.secs, model=r.model, known=fid)
+                    return
+        record(o, r.verdict, r.backend, r.secs, model=r.model, reason=r.reason if r.verdict == "unknown" else None)
+
+    for o in singles:
+        single(o)
+    for g, os_ in groups.items():
+        if len(os_) < 3:
+            for o in os_:
+                single(o)
+            continue
+        s = z3.Solver()
+        s.set("timeout", timeout_ms)
+        for p in os_[0].pc:
+            s.add(_zb(p))
+        for o in os_:
+            ta = time.time()
+            s.push()
+            s.add(z3.Not(_zb(o.goal)))
+            r = s.check()
+            s.pop()
+            dt = time.time() - ta
+            if r == z3.unsat:
+                record(o, "proved", "z3(incremental-per-exit)", dt)
+            else:
+                single(o)
     fr.prove_s += time.time() - t0
 
 
@@ -114,12 +160,13 @@ def verify_functional(ex, contract, timeout_ms=30000, extra_pre=None, cls_names=
         obligs = []
         fname = contract.qualname.split(".", 2)[-1]
         nreach = 0
-        for (st, oc) in exits:
+        for xi, (st, oc) in enumerate(exits):
             kind = oc.kind if oc.kind != "raise" else "raise:" + oc.exc
             fr.exits[kind] = fr.exits.get(kind, 0) + 1
             obligs.extend(st.obligs)
             if oc.kind == "raise" and oc.exc == "<cut>":
                 continue
+            nbefore = len(obligs)
             if oc.kind in ("normal", "return"):
                 obligs.append(Oblig("%s/post/no-raise" % fname, st.pc, Not(Sspec.raised), "post", contract.field_props.get("raises", ())))
                 rv = oc.value if oc.kind == "return" else NONEV
@@ -141,10 +188,12 @@ def verify_functional(ex, contract, timeout_ms=30000, extra_pre=None, cls_names=
                 like = a if a is not None else b
                 a = heap_map(st.heap, k, like)
                 b = heap_map(Sspec.heap, k, like)
-                if z3.eq(a, b):
+                if map_same(a, b):
                     continue
                 base = k.split("#")[0]
-                obligs.append(Oblig("%s/post/field:%s" % (fname, k), st.pc, a == b, "post", contract.field_props.get(base, contract.field_props.get("*", ()))))
+                obligs.append(Oblig("%s/post/field:%s" % (fname, k), st.pc, map_equal(a, b), "post", contract.field_props.get(base, contract.field_props.get("*", ()))))
+            for o in obligs[nbefore:]:
+                o.group = xi
         # needs of the spec itself
         for (sid, cond, goal) in Sspec.side:
             obligs.append(Oblig("%s/spec-need/%s" % (fname, sid), st0.pc, Implies(cond, goal), "side"))
